@@ -13,6 +13,7 @@ S == Data.S
 CH == Data.chunk
 NChunks == (Len(Recs) + CH - 1) \div CH
 SENT == 2000000000
+FAR == 1999999999        \* finite, but beyond the lattice: the run cannot be judged (counted, not a violation)
 TOL == 3                           \* 1e-4 (one unit) plus lattice rounding on either side
 Abs(x) == IF x < 0 THEN -x ELSE x
 P(r, i, dim) == r.pos[i + 1][dim + 1]                \* node indices in constraints are 0-based, dim 0 = x
@@ -51,11 +52,14 @@ C07Tags(r) ==
     IF r.thrown THEN {"exception"} ELSE
     LET rep == ToSet(r.reported) IN
     (IF \E i \in 1..r.n : r.pos[i][1] = SENT \/ r.pos[i][2] = SENT THEN {"non-finite-coordinate"} ELSE
+     IF \E i \in 1..r.n : r.pos[i][1] = FAR \/ r.pos[i][2] = FAR THEN {} ELSE
        \* a violated, unreported constraint in a dimension where some constraint was reported although it holds in the result: the
        \* unsatisfiable-constraint lists are filled by the descent steps only, not by the projection that produces the final positions
        \* (ConstrainedFDLayout::moveTo), which may have dropped a different member of the contradictory group
        {IF \E j \in rep : j \in DOMAIN r.cons /\ r.cons[j].kind \in {1, 2, 3} /\ r.cons[i].kind \in {1, 2, 3} /\ r.cons[j].dim = r.cons[i].dim /\ Holds(r, rep, r.cons[j])
         THEN <<"unreported-constraint-violated", "a-reported-constraint-of-that-dimension-holds-instead">>
+        \* the same mechanism when what was reported is one of the library's own non-overlap constraints (index 0 in the record)
+        ELSE IF 0 \in rep /\ r.flags % 2 = 1 THEN <<"unreported-constraint-violated", "a-non-overlap-constraint-was-reported-instead">>
         ELSE <<"unreported-constraint-violated", KindName(r.cons[i].kind)>> : i \in {i \in DOMAIN r.cons : i \notin rep /\ ~Holds(r, rep, r.cons[i])}})
     \cup (IF \E i \in 1..r.n : Abs(r.dim[i][1] - r.size[i][1] * S) > 1 \/ Abs(r.dim[i][2] - r.size[i][2] * S) > 1 THEN {"size-changed"} ELSE {})
 \* ---- overlap avoidance and cluster containment (C08) -----------------------------
@@ -69,7 +73,7 @@ BoxHi(r, ns, d) == LET vs == {Hi(r, i, d) : i \in ns} IN CHOOSE x \in vs : \A y 
 BoxesOverlap(r, A, B) == \A d \in {1, 2} : (IF BoxHi(r, A, d) < BoxHi(r, B, d) THEN BoxHi(r, A, d) ELSE BoxHi(r, B, d))
                                            - (IF BoxLo(r, A, d) > BoxLo(r, B, d) THEN BoxLo(r, A, d) ELSE BoxLo(r, B, d)) > OvTol
 C08Tags(r) ==
-    IF r.thrown \/ r.reported # <<>> \/ r.flags % 2 = 0 \/ (r.flags \div 2) % 2 = 0 \/ (\E i \in 1..r.n : r.pos[i][1] = SENT \/ r.pos[i][2] = SENT) THEN {} ELSE
+    IF r.thrown \/ r.reported # <<>> \/ r.flags % 2 = 0 \/ (r.flags \div 2) % 2 = 0 \/ (\E i \in 1..r.n : r.pos[i][1] \in {SENT, FAR} \/ r.pos[i][2] \in {SENT, FAR}) THEN {} ELSE
     (IF \E i \in 1..r.n, j \in 1..r.n : i < j /\ ~Exempt(r, i, j) /\ Overlap(r, i, j) THEN {"nodes-overlap"} ELSE {})
     \* cluster hierarchy: the members of a cluster are its own nodes and those of its descendants (parent = 0: child of the root)
     \cup (LET RECURSIVE Anc(_, _)
